@@ -37,7 +37,7 @@ REQUIRED_BUCKETS = ["outcome:ret", "outcome:exc", "outcome:base", "outcome:block
                     "helper:on-cancel-exc", "helper:done-exception", "helper:second-stop-request-during-clean-up", "stop-during-run",
                     "stop-during-restart-delay", "stop-before-start", "stop-after-completion", "double-start",
                     "cancel-swallowed", "cancel-converted-to-exception", "extra-task", "service-multi-task",
-                    "task-added-while-stop-is-waiting", "task-added-while-wait-is-waiting", "service:task-added-while-stopping",
+                    "task-added-while-stop-is-waiting", "task-added-while-wait-is-waiting", "caller-of-stop-cancelled-while-stop-is-waiting", "service:task-added-while-stopping",
                     "run-group", "run-group:actors-share-a-name", "restart-after-done",
                     "service-as-context-manager:body-raises", "service-as-context-manager:task-error-at-exit"]
 REQUIRED_COUNTERS = ["run_enters_observed", "external_calls_observed", "cases_run"]
@@ -128,7 +128,7 @@ def gen(rng: Any, tier: str, i: int) -> Any:
         pts = rng.randint(1, 4)
         o = rng.choice(["exc", "exc", "exc", "ret", "base", "block"]) if j < n - 1 else rng.choice(OUTCOMES)
         runs.append({"points": pts, "at": rng.randrange(pts), "outcome": o,
-                     "on_cancel": rng.choice(["propagate", "propagate", "propagate", "swallow", "exc"])})
+                     "on_cancel": rng.choice(["propagate", "propagate", "propagate", "swallow", "exc", "cleanup"])})
         if rng.random() < 0.25:
             # the run logic hands a clean-up / follow-up task to its service (self._tasks.add) on its way out: when it
             # is cancelled, or when it fails - i.e. a task is added while a stop() / wait() is already waiting
@@ -143,7 +143,8 @@ def gen(rng: Any, tier: str, i: int) -> Any:
     for _ in range(rng.randint(0, 4)):
         t += rng.choice([0.25, 0.5, 1.25, 2.5, 3.25, 7.5])
         t = int(t) + rng.choice([0.5, 0.75]) if (t % 1) in (0.0, 0.25) else t
-        drv.append([t, rng.choice(["stop", "stop", "cancel", "wait", "await", "start", "add_task", "add_task_late"])])
+        # ("stop!": the task that awaits stop() is itself cancelled a moment later, e.g. by a timeout around the stop)
+        drv.append([t, rng.choice(["stop", "stop", "cancel", "wait", "await", "start", "add_task", "add_task_late", "stop!"])])
     if rng.random() < 0.5:
         drv.append([max(t, 30.0) + 0.25 + int(rng.choice([0, 5])), "start"])  # start again later
         drv.append([drv[-1][0] + rng.choice([0.5, 3.5, 20.5]), "stop"])
@@ -214,6 +215,11 @@ def _make_actor(script: list[dict[str, Any]], log: list[Any], name: str, display
                     how = "cancelled"
                     if spec.get("spawn") is not None:
                         self._spawn(spec["spawn"])
+                    if spec["on_cancel"] == "cleanup":
+                        try:
+                            await asyncio.sleep(0.4375)  # a graceful shutdown that takes a moment
+                        except asyncio.CancelledError:
+                            pass
                     raise
             finally:
                 self.depth -= 1
@@ -259,7 +265,7 @@ async def _drive_actor(case: dict[str, Any], log: list[Any]) -> None:
             track_extras()
             life_at_call, t_call = life[0], loop.time()
             try:
-                if kind == "stop":
+                if kind in ("stop", "stop!"):
                     await a.stop()
                 elif kind == "wait":
                     await a.wait()
@@ -321,6 +327,8 @@ async def _drive_actor(case: dict[str, Any], log: list[Any]) -> None:
             else:
                 # stop/wait/await may block for long: run them as background calls so the script continues
                 bg.append(asyncio.create_task(call(act, t)))
+                if act == "stop!":
+                    loop.call_later(0.0625, bg[-1].cancel)
         dt = t0 + case["horizon"] - loop.time()
         if dt > 0:
             await asyncio.sleep(dt)
@@ -365,7 +373,7 @@ def _judge_actor(case: dict[str, Any], log: list[Any], rec: Any) -> None:
             rec.violation("run-logic-active-twice-concurrently", w0)
             return
     # cancels delivered (cancel / stop calls) at times
-    cancel_times = [c["t"] for c in calls if c["what"] in ("cancel", "stop")]
+    cancel_times = [c["t"] for c in calls if c["what"] in ("cancel", "stop", "stop!")]
     start_times = [c["t"] for c in calls if c["what"] == "start"]
     exits = {e["run"]: e for e in runs if e["ev"] == "exit"}
     # an explicit start() takes effect only on a non-running actor; it accounts for exactly one enter
@@ -453,6 +461,15 @@ def _judge_actor(case: dict[str, Any], log: list[Any], rec: Any) -> None:
             rec.bucket("double-start")
         if c["what"] in ("add_task", "add_task_late"):
             rec.bucket("extra-task")
+        if c["what"] == "stop!" and "returned_at" in c:
+            # the task awaiting stop() was cancelled 1/16 s after the call: if stop() was still waiting then, the
+            # cancellation comes out of it - it does not return normally while tasks of the service are still running
+            if c["returned_at"] > c["t"] + 0.06:
+                rec.bucket("caller-of-stop-cancelled-while-stop-is-waiting")
+            if c["raised"] is None and c.get("registered_pending_at_return"):
+                rec.violation("stop-returned-normally-although-tasks-of-the-service-are-still-running",
+                              {**w0, "call": c, "pending": c["registered_pending_at_return"]})
+                return
         if c["what"] in ("stop", "wait", "await"):
             if "returned_at" not in c or c.get("blocked_at_end"):
                 # still blocked at the horizon: legal only if something is still running
